@@ -85,15 +85,26 @@ Cond(x) == C.cond[x]
 Q  == C.quoteSym
 SMax == LET S == {C.scale[x] : x \in Syms} IN CHOOSE m \in S : \A k \in S : k <= m
 PairOf(b, q) == {p \in PairIdx : BaseOf(p) = b /\ QuoteOf(p) = q}
-HasPrice(s, x) == x = Q \/ \E p \in PairOf(x, Q) : s.last[p] > 0
+\* Prices.convert: the direct pair x/Q if it has a price, otherwise the inverse pair Q/x (1 / price)
+DirectPriced(s, x) == \E p \in PairOf(x, Q) : s.last[p] > 0
+InvPricedOnly(s, x) == x # Q /\ ~DirectPriced(s, x) /\ \E p \in PairOf(Q, x) : s.last[p] > 0
+HasPrice(s, x) == x = Q \/ DirectPriced(s, x) \/ InvPricedOnly(s, x)
 PriceIn(s, x)  == LET p == CHOOSE p \in PairOf(x, Q) : s.last[p] > 0 IN s.last[p]
-\* value of v units of symbol x in units of the normalising symbol, as a numerator over VDen
+InvPrice(s, x) == LET p == CHOOSE p \in PairOf(Q, x) : s.last[p] > 0 IN s.last[p]
+\* values through an inverse pair divide by its price: every value is carried multiplied by KAll, the product of the
+\* prices of all inverse-valued symbols, so that everything stays integral (the factor cancels in every comparison)
+RECURSIVE ProdInv(_, _)
+ProdInv(s, S) == IF S = {} THEN 1 ELSE LET x == CHOOSE x \in S : TRUE IN InvPrice(s, x) * ProdInv(s, S \ {x})
+KAll(s) == ProdInv(s, {x \in Syms : InvPricedOnly(s, x)})
+\* value of v units of symbol x in units of the normalising symbol, as a numerator over VDen (times KAll)
 VDen == SMax * C.pm
-\*   x = Q : v units                     = v * VDen / VDen
-\*   x # Q : v * price / (scale[x] * pm) = v * price * (SMax / scale[x]) / VDen      (direct pair x/Q only)
+\*   x = Q      : v units                              = v * VDen / VDen
+\*   direct x/Q : v * price / (scale[x] * pm)          = v * price * (SMax / scale[x]) / VDen
+\*   inverse Q/x: v * pm * scale[Q] / price            = v * pm * pm * scale[Q] * SMax / price / VDen
 ValQ(s, x, v) == IF v = 0 THEN 0
-                 ELSE IF x = Q THEN v * VDen
-                 ELSE v * PriceIn(s, x) * (SMax \div C.scale[x])
+                 ELSE IF x = Q THEN v * VDen * KAll(s)
+                 ELSE IF DirectPriced(s, x) THEN v * PriceIn(s, x) * (SMax \div C.scale[x]) * KAll(s)
+                 ELSE v * C.pm * C.pm * C.scale[Q] * SMax * (KAll(s) \div InvPrice(s, x))
 
 \* outstanding interest of loan l at time t, in units of its interest symbol (MarginLoan.calculate_interest,
 \* then ValueMap.truncate): max(principal * pct/100 * elapsed/period [converted], min) truncated
@@ -107,7 +118,8 @@ InterestOf(s, l, t) ==
      ELSE \* converted to the interest symbol (only the normalising symbol is supported as a foreign interest symbol)
           LET p == PriceIn(s, l.sym) IN
           Max2((n * p) \div (d * C.scale[l.sym] * C.pm), c.minInt)
-InterestConvertible(s, l) == Cond(l.sym).isym = l.sym \/ (Cond(l.sym).isym = Q /\ HasPrice(s, l.sym))
+\* (a foreign interest symbol is only supported for symbols priced through a direct pair)
+InterestConvertible(s, l) == Cond(l.sym).isym = l.sym \/ (Cond(l.sym).isym = Q /\ DirectPriced(s, l.sym))
 
 \* CheckMarginLevel on candidate maps (nb, nbor).  Result: "ok" | "nebal" | "noprice" | "zero"
 MarginCheck(s, nb, nbor) ==
